@@ -140,9 +140,10 @@ type cworld struct {
 	accepted int // probes accepted by the replica (each is then checked with L1)
 
 	committees map[uint64]lib.ValidatorSet
+	minStake   uint64
 }
 
-func cgenesis() *fsm.GenesisState {
+func cgenesis(minStake uint64) *fsm.GenesisState {
 	acc := map[int]uint64{0: 1_000_000, 1: 1_000_000, 2: 1_000_000, 3: 1_000_000, 10: 1_000_000}
 	var vals []env.ValSpec
 	for i := 0; i < nVals; i++ {
@@ -154,11 +155,14 @@ func cgenesis() *fsm.GenesisState {
 		v.UnstakingBlocks, v.DelegateUnstakingBlocks = unstakingBlocks, unstakingBlocks
 		v.DoubleSignSlashPercentage, v.MaxSlashPerCommittee = dsPercent, capPercent
 		v.NonSignWindow, v.MaxNonSign = 100, 90
+		// with a minimum stake just below the genesis stakes the first slash of a validator also starts
+		// its forced unstaking (another path through SlashValidator)
+		v.MinimumStakeForValidators = minStake
 	})
 }
 
-func newCWorld(start int) (*cworld, error) {
-	g := cgenesis()
+func newCWorld(start int, minStake uint64) (*cworld, error) {
+	g := cgenesis(minStake)
 	w := &cworld{carried: map[pair]uint64{}, truth: map[pair]bool{}, start: start}
 	for _, it := range evItems {
 		for _, v := range it.truth() {
@@ -273,7 +277,7 @@ func (w *cworld) viol(kind, what string) {
 		names = append(names, listName(op))
 	}
 	w.viols = append(w.viols, mc.Viol{Sig: "C14:" + kind, What: fmt.Sprintf("start height %d, evidence per block %v: %s", w.start+1, names, what),
-		Replay: map[string]any{"part": "chain", "start": w.start, "path": w.path, "names": names}})
+		Replay: map[string]any{"part": "chain", "start": w.start, "path": w.path, "names": names, "min_stake": w.minStake}})
 }
 
 // checkList applies L1 to a slash list accepted for the block at height h.
@@ -541,6 +545,8 @@ type cjob struct {
 	Start int   `json:"start"` // empty blocks committed before the path starts
 	Path  []int `json:"path"`
 	Probe bool  `json:"probe"`
+	// MinStake is the governance minimum stake of the world (0, or just below the genesis stakes)
+	MinStake uint64 `json:"min_stake,omitempty"`
 }
 
 type cresult struct {
@@ -562,7 +568,10 @@ func execChain(j cjob) (res cresult) {
 			res.HarnessErr = fmt.Sprintf("panic: %v\n%s", p, debug.Stack())
 		}
 	}()
-	w, err := newCWorld(j.Start)
+	w, err := newCWorld(j.Start, j.MinStake)
+	if err == nil {
+		w.minStake = j.MinStake
+	}
 	if err != nil {
 		res.HarnessErr = err.Error()
 		return
